@@ -51,6 +51,9 @@ type c17Conn struct {
 	answered bool
 	closed   bool // closed by the client
 	lastAct  time.Duration
+	// prevGap is the silence that preceded the last answered call: a reaper pass that found the connection
+	// idle just before that call may still be on its way to closing it
+	prevGap time.Duration
 }
 
 type c17State struct {
@@ -328,6 +331,7 @@ func runC17(t *testing.T, scAny any, trace bool) *Outcome {
 							o.Vio("C17.served-after-stop", "op="+stp.Op, "client %d step %d: a %s call sent at t=%v, after Stop/Close had returned, was answered", ci, si, stp.Op, sentAt)
 						}
 						cc.answered = true
+						cc.prevGap = sentAt - cc.lastAct
 						cc.lastAct = now()
 						if n := st.servedOpen(); n > effMax {
 							simrt.Probe("served_above_max")
@@ -345,7 +349,7 @@ func runC17(t *testing.T, scAny any, trace bool) *Outcome {
 							simrt.Probe("connection_refused_service_at_limit")
 						}
 						// a connection that was being served and active is not closed without reason
-						if cc.answered && adminStarted.Load() == 0 && idleChangedAt.Load() == 0 && maxStall == 0 && sentAt-cc.lastAct < effIdle/2 && sentAt-cc.lastAct < 10*time.Second && effIdle >= 100*time.Millisecond {
+						if cc.answered && adminStarted.Load() == 0 && idleChangedAt.Load() == 0 && maxStall == 0 && sentAt-cc.lastAct < effIdle/2 && cc.prevGap < effIdle/2 && sentAt-cc.lastAct < 10*time.Second && effIdle >= 100*time.Millisecond {
 							// (below 100 ms the scheduler's injected delays - up to 2 ms per unlock - can by themselves
 							// keep a request in the server longer than the idle time-out)
 							o.Vio("C17.active-connection-closed", "op="+stp.Op, "client %d step %d: connection answered before and active %v ago (IdleTimeout %v) got no reply to %s: %v", ci, si, sentAt-cc.lastAct, effIdle, stp.Op, err)
